@@ -5,7 +5,7 @@
     are Model/Pred.v (tied to the Go code by the correspondence run).
     [FR x] is the real number the float64 [x] denotes; [detR a b c] the exact determinant. *)
 From Coq Require Import ZArith Reals Floats Bool.
-From Geo Require Import Base.GoPrim Base.F64 Base.Exact Gen.R3 Gen.S2Pred Model.Pred Proofs.C02_Exact Proofs.C02_Float Proofs.C02_SoS Proofs.C02_SoSGlobal Proofs.C02_RelErr Proofs.C02_TriageDet Proofs.C02_Robust Proofs.C02_IsUnit.
+From Geo Require Import Base.GoPrim Base.F64 Base.Exact Gen.R3 Gen.S2Pred Model.Pred Proofs.C02_Exact Proofs.C02_Float Proofs.C02_SoS Proofs.C02_SoSGlobal Proofs.C02_RelErr Proofs.C02_TriageDet Proofs.C02_StableDet Proofs.C02_Robust Proofs.C02_IsUnit Proofs.C02_DistRefuted.
 Local Open Scope R_scope.
 
 (** exact stage ------------------------------------------------------------------------- *)
@@ -70,7 +70,7 @@ Proof. exact exact_sign_dot_prod_spec. Qed.
 Print Assumptions exact_sign_dot_prod_is_exact.
 
 (** float stages under named hypotheses --------------------------------------------------
-    H_STABLE_DET / H_TRIAGE_COS / H_TRIAGE_SIN2 / H_TRIAGE_COS1 / H_TRIAGE_SIN21 (H_TRIAGE_DET and
+    H_TRIAGE_COS / H_TRIAGE_SIN2 / H_TRIAGE_COS1 / H_TRIAGE_SIN21 (H_TRIAGE_DET, H_STABLE_DET and
     H_TRIAGE_DOT are discharged) are Prop-valued definitions in Proofs/C02_Float.v about float64 arithmetic
     (error of the float determinant / dot product, soundness of the float comparisons);
     they appear as premises. [unit_pt p]: finite coordinates and | |p|^2 - 1 | <= 2^-44. *)
@@ -104,9 +104,17 @@ Theorem triage_sign_never_wrong : forall a b c, unit_pt a -> unit_pt b -> unit_p
 Proof. exact triage_sound_closed. Qed.
 Print Assumptions triage_sign_never_wrong.
 
-Theorem stable_sign_never_wrong : H_STABLE_DET -> forall a b c, unit_pt a -> unit_pt b -> unit_pt c ->
+(** H-STABLE-DET is discharged for the repaired stableSign (tight constant 3.2321 * 2^-52, Flocq +
+    scaled triage_real + the no-underflow guard): CLOSED. Closed side conditions on the constants: *)
+Theorem stable_constants_are_adequate :
+  ffinite detErrMul = true /\ ffinite minNoUnderflowErr = true /\
+  847275 / 2 ^ 17 * u <= FR detErrMul <= 1 /\ FR detErrMul <= 2 ^ 501 * FR minNoUnderflowErr.
+Proof. exact stable_consts_ok. Qed.
+Print Assumptions stable_constants_are_adequate.
+
+Theorem stable_sign_never_wrong : forall a b c, unit_pt a -> unit_pt b -> unit_pt c ->
   s2_stableSign a b c <> 0%Z -> s2_stableSign a b c = sgnR (detR a b c).
-Proof. exact stable_sound. Qed.
+Proof. exact stable_sound_closed. Qed.
 Print Assumptions stable_sign_never_wrong.
 
 (** REPAIRED FINDING (KNOWN_FINDINGS.jsonl: fixed bfbf523, kind stableSign.underflow). Before the
@@ -123,14 +131,14 @@ Theorem stable_sign_old_refuted : ~ H_STABLE_DET_OLD.
 Proof. exact H_STABLE_DET_OLD_refuted. Qed.
 Print Assumptions stable_sign_old_refuted.
 
-(** the repaired code: no guard on the inputs *)
-Theorem robust_sign_is_exact_sign : H_STABLE_DET -> forall a b c,
+(** the repaired code: CLOSED, no hypothesis, no guard beyond unit length *)
+Theorem robust_sign_is_exact_sign : forall a b c,
   unit_pt a -> unit_pt b -> unit_pt c ->
   robust_sign a b c = if identical2 a b c then 0%Z else exact_sign a b c.
 Proof. exact robust_sign_spec. Qed.
 Print Assumptions robust_sign_is_exact_sign.
 
-Theorem robust_sign_is_sign_of_nonzero_determinant : H_STABLE_DET -> forall a b c,
+Theorem robust_sign_is_sign_of_nonzero_determinant : forall a b c,
   unit_pt a -> unit_pt b -> unit_pt c ->
   detR a b c <> 0 -> robust_sign a b c = sgnR (detR a b c).
 Proof. exact robust_sign_det. Qed.
@@ -141,34 +149,47 @@ Theorem robust_sign_zero_iff_two_identical : forall a b c,
 Proof. exact robust_sign_zero_iff. Qed.
 Print Assumptions robust_sign_zero_iff_two_identical.
 
-Theorem robust_sign_rotation : H_STABLE_DET -> forall a b c,
+Theorem robust_sign_rotation : forall a b c,
   unit_pt a -> unit_pt b -> unit_pt c -> robust_sign b c a = robust_sign a b c.
 Proof. exact robust_sign_rotate. Qed.
 Print Assumptions robust_sign_rotation.
 
-Theorem robust_sign_swap_negates : H_STABLE_DET -> forall a b c,
+Theorem robust_sign_swap_negates : forall a b c,
   unit_pt a -> unit_pt b -> unit_pt c -> robust_sign c b a = (- robust_sign a b c)%Z.
 Proof. exact robust_sign_swap. Qed.
 Print Assumptions robust_sign_swap_negates.
 
+(** FINDING (KNOWN_FINDINGS.jsonl kind CompareDistances.notNormalized). With "unit length" read as
+    the library's r3.Vector.IsUnit (5e-14), the sentence "CompareDistances returns the exact
+    comparison of the true spherical distances" is FALSE of the unchanged code: *)
+Theorem compare_distances_exact_on_isunit_points_refuted : exists x a b,
+  r3_Vector_IsUnit (s2_Point_Vector x) = true /\ r3_Vector_IsUnit (s2_Point_Vector a) = true /\
+  r3_Vector_IsUnit (s2_Point_Vector b) = true /\
+  unit_pt x /\ unit_pt a /\ unit_pt b /\
+  cmp_distances_R x a b <> 0%Z /\ compare_distances x a b <> cmp_distances_R x a b.
+Proof. exact compare_distances_isunit_refuted. Qed.
+Print Assumptions compare_distances_exact_on_isunit_points_refuted.
+
+(** What holds, under the float hypotheses, is the statement for NORMALIZED points
+    ([norm_pt]: | |p|^2 - 1 | <= 2^-50, what Normalize leaves): *)
 Theorem compare_distances_is_exact_comparison : H_TRIAGE_COS -> H_TRIAGE_SIN2 -> forall x a b,
-  unit_pt x -> unit_pt a -> unit_pt b -> cmp_distances_R x a b <> 0%Z ->
+  norm_pt x -> norm_pt a -> norm_pt b -> cmp_distances_R x a b <> 0%Z ->
   compare_distances x a b = cmp_distances_R x a b.
 Proof. exact compare_distances_exact. Qed.
 Print Assumptions compare_distances_is_exact_comparison.
 
 Theorem compare_distances_antisymmetric : H_TRIAGE_COS -> H_TRIAGE_SIN2 -> forall x a b,
-  unit_pt x -> unit_pt a -> unit_pt b -> compare_distances x b a = (- compare_distances x a b)%Z.
+  norm_pt x -> norm_pt a -> norm_pt b -> compare_distances x b a = (- compare_distances x a b)%Z.
 Proof. exact compare_distances_antisym. Qed.
 Print Assumptions compare_distances_antisymmetric.
 
 Theorem compare_distances_zero_iff_same_point : H_TRIAGE_COS -> H_TRIAGE_SIN2 -> forall x a b,
-  unit_pt x -> unit_pt a -> unit_pt b -> (compare_distances x a b = 0%Z <-> s2_Point_eqb a b = true).
+  norm_pt x -> norm_pt a -> norm_pt b -> (compare_distances x a b = 0%Z <-> s2_Point_eqb a b = true).
 Proof. exact compare_distances_zero_iff. Qed.
 Print Assumptions compare_distances_zero_iff_same_point.
 
 Theorem compare_distance_is_exact_comparison : H_TRIAGE_COS1 -> H_TRIAGE_SIN21 -> forall x y r,
-  unit_pt x -> unit_pt y -> valid_limit r -> compare_distance x y r = cmp_distance_R x y r.
+  norm_pt x -> norm_pt y -> valid_limit r -> compare_distance x y r = cmp_distance_R x y r.
 Proof. exact compare_distance_spec. Qed.
 Print Assumptions compare_distance_is_exact_comparison.
 
